@@ -74,8 +74,27 @@ func newWalVocab(p *Prog) *walVocab {
 	v.finalizer = need("state.finalizer", fieldWhere(v.stateT, "finalizer", func(f *types.Var) bool { return typeIs(f.Type(), "sync/atomic.Value") }))
 	v.tail = need("state.tail", fieldWhere(v.stateT, "tail", func(f *types.Var) bool { return typeIs(f.Type(), ModPath+"/types.SegmentWriter") }))
 	v.segments = need("state.segments", fieldWhere(v.stateT, "segments", func(f *types.Var) bool { return strings.Contains(f.Type().String(), "immutable.SortedMap") }))
-	v.nextSegmentID = need("state.nextSegmentID", fieldWhere(v.stateT, "nextSegmentID", func(f *types.Var) bool { return typeIs(f.Type(), "uint64") }))
-	v.nextBaseIndex = fieldWhere(v.stateT, "nextBaseIndex", func(f *types.Var) bool { return typeIs(f.Type(), "uint64") })
+	// the ID counter is the uint64 field of the snapshot that Persistent() copies into PersistentState.NextSegmentID;
+	// the (optional) other uint64 field is the base-index hint for the next segment
+	var idField *types.Var
+	if pf := p.Func("", "state.Persistent"); pf != nil {
+		for _, b := range pf.Blocks {
+			for _, ins := range b.Instrs {
+				if st, ok := ins.(*ssa.Store); ok {
+					if dst := fieldOfAddr(st.Addr); dst != nil && dst.Name() == "NextSegmentID" {
+						if src := loadedField(st.Val); src != nil {
+							idField = src
+						}
+					}
+				}
+			}
+		}
+	}
+	if idField == nil {
+		idField = fieldWhere(v.stateT, "nextSegmentID", func(f *types.Var) bool { return typeIs(f.Type(), "uint64") })
+	}
+	v.nextSegmentID = need("state.nextSegmentID", idField)
+	v.nextBaseIndex = fieldWhere(v.stateT, "nextBaseIndex", func(f *types.Var) bool { return typeIs(f.Type(), "uint64") && f != idField })
 	if tn := p.NamedType("", "stateTxn"); tn != nil {
 		v.txnSig, _ = tn.Underlying().(*types.Signature)
 	}
